@@ -60,7 +60,24 @@ Definition bytes := list N.
 Inductive scalar := SNil | SInt (z : Z) | SStr (b : bytes) | SFloat (bits : N) | SObj (id : N).
 Inductive value := VScal (s : scalar) | VArr (r : N) | VCon (r : N).
 
-Definition holder := list (Z * value).
+(* an array key: ScriptVariable as map key (integer or string; other kinds have no hash) *)
+Inductive key := KInt (z : Z) | KStr (b : bytes).
+
+Fixpoint bytes_eqb (a b : bytes) : bool :=
+  match a, b with
+  | [], [] => true
+  | x :: a', y :: b' => N.eqb x y && bytes_eqb a' b'
+  | _, _ => false
+  end.
+
+Definition key_eqb (a b : key) : bool :=
+  match a, b with
+  | KInt x, KInt y => Z.eqb x y
+  | KStr x, KStr y => bytes_eqb x y
+  | _, _ => false
+  end.
+
+Definition holder := list (key * value).
 
 (* an operand of `::` *)
 Inductive cval := CLit (s : scalar) | CVar (y : N).
@@ -69,13 +86,14 @@ Inductive instr :=
 | IPrint (m : N)                          (* println "<m>" *)
 | IWait (d : N)                           (* wait d ms *)
 | ISet (x : N) (s : scalar)               (* local.x = literal / NIL *)
-| ISetElem (x : N) (k : Z) (s : scalar)   (* local.x[k] = literal / NIL *)
-| ISetElemVar (x : N) (k : Z) (y : N)     (* local.x[k] = local.y *)
-| IGetElem (y : N) (x : N) (k : Z)        (* local.y = local.x[k] *)
+| ISetElem (x : N) (k : key) (s : scalar)   (* local.x[k] = literal / NIL *)
+| ISetElemVar (x : N) (k : key) (y : N)     (* local.x[k] = local.y *)
+| IGetElem (y : N) (x : N) (k : key)       (* local.y = local.x[k] *)
 | ICopy (x y : N)                         (* local.x = local.y *)
 | IConst (x : N) (l : list cval)          (* local.x = c1::c2::.. *)
 | IPrintVar (x : N)                       (* println local.x *)
-| IPrintElem (x : N) (k : Z)              (* println local.x[k] *)
+| IPrintElem (x : N) (k : key)            (* println local.x[k] *)
+| IPrintSize (x : N)                      (* println local.x.size *)
 | IThread (args : list N) (p : prog)      (* thread <label of p> local.a1 local.a2 .. *)
 with prog := PEnd | PSeq (i : instr) (p : prog).
 
@@ -144,38 +162,38 @@ Fixpoint heap_set (r : N) (o : holder) (h : list (N * holder)) : list (N * holde
   | (q, o') :: h' => if N.eqb r q then (q, o) :: h' else (q, o') :: heap_set r o h'
   end.
 
-Fixpoint hold_get (k : Z) (o : holder) : value :=
+Fixpoint hold_get (k : key) (o : holder) : value :=
   match o with
   | [] => VScal SNil
-  | (j, s) :: o' => if Z.eqb k j then s else hold_get k o'
+  | (j, s) :: o' => if key_eqb k j then s else hold_get k o'
   end.
 
-Fixpoint hold_mem (k : Z) (o : holder) : bool :=
+Fixpoint hold_mem (k : key) (o : holder) : bool :=
   match o with
   | [] => false
-  | (j, _) :: o' => if Z.eqb k j then true else hold_mem k o'
+  | (j, _) :: o' => if key_eqb k j then true else hold_mem k o'
   end.
 
-Fixpoint hold_remove (k : Z) (o : holder) : holder :=
+Fixpoint hold_remove (k : key) (o : holder) : holder :=
   match o with
   | [] => []
-  | (j, s) :: o' => if Z.eqb k j then o' else (j, s) :: hold_remove k o'
+  | (j, s) :: o' => if key_eqb k j then o' else (j, s) :: hold_remove k o'
   end.
 
-Fixpoint hold_put (k : Z) (s : value) (o : holder) : holder :=
+Fixpoint hold_put (k : key) (s : value) (o : holder) : holder :=
   match o with
   | [] => [(k, s)]
-  | (j, s') :: o' => if Z.eqb k j then (j, s) :: o' else (j, s') :: hold_put k s o'
+  | (j, s') :: o' => if key_eqb k j then (j, s) :: o' else (j, s') :: hold_put k s o'
   end.
 
 Definition is_nil (v : value) : bool := match v with VScal SNil => true | _ => false end.
 
 (* map<..>::operator[] = value, or remove(index) for NIL *)
-Definition hold_set (k : Z) (v : value) (o : holder) : holder :=
+Definition hold_set (k : key) (v : value) (o : holder) : holder :=
   if is_nil v then hold_remove k o else hold_put k v o.
 
 (* ScriptVariable::setArrayAtRef on the variable local.x *)
-Definition store_elem (s : st) (env : list (N * value)) (x : N) (k : Z) (v : value)
+Definition store_elem (s : st) (env : list (N * value)) (x : N) (k : key) (v : value)
   : st * list (N * value) :=
   match env_get x env with
   | VArr r => (set_heap s (heap_set r (hold_set k v (heap_get r (heap s))) (heap s)), env)
@@ -187,7 +205,7 @@ Definition store_elem (s : st) (env : list (N * value)) (x : N) (k : Z) (v : val
   end.
 
 (* ScriptVariable::operator[] *)
-Definition load_elem (s : st) (env : list (N * value)) (x : N) (k : Z) : value :=
+Definition load_elem (s : st) (env : list (N * value)) (x : N) (k : key) : value :=
   match env_get x env with
   | VArr r => hold_get k (heap_get r (heap s))
   | VCon r => hold_get k (heap_get r (heap s))
@@ -198,7 +216,15 @@ Definition cval_get (env : list (N * value)) (c : cval) : value :=
   match c with CLit sc => VScal sc | CVar y => env_get y env end.
 
 Fixpoint number_from (k : Z) (l : list value) : holder :=
-  match l with [] => [] | v :: l' => (k, v) :: number_from (k + 1) l' end.
+  match l with [] => [] | v :: l' => (KInt k, v) :: number_from (k + 1) l' end.
+
+(* ScriptVariable::size *)
+Definition size_of (s : st) (v : value) : Z :=
+  match v with
+  | VScal SNil => (-1)%Z
+  | VScal _ => 1%Z
+  | VArr r | VCon r => Z.of_nat (length (heap_get r (heap s)))
+  end.
 
 Fixpoint params_from (k : N) (l : list value) : list (N * value) :=
   match l with [] => [] | v :: l' => (k, v) :: params_from (k + 1) l' end.
@@ -251,6 +277,7 @@ Fixpoint run_code (p : prog) (s : st) (h : N) (env : list (N * value)) (log : li
                (env_set x (VCon (nextr s)) env) log
   | PSeq (IPrintVar x) p' => run_code p' s h env (print_of (env_get x env) :: log)
   | PSeq (IPrintElem x k) p' => run_code p' s h env (print_of (load_elem s env x k) :: log)
+  | PSeq (IPrintSize x) p' => run_code p' s h env (PVal (SInt (size_of s (env_get x env))) :: log)
   | PSeq (IThread args q) p' =>
       let hc := nexth s in
       let s1 := mkSt (elems s) (spawn_in h hc (insts s)) (heap s) (mtime s) (dirty s) (scaled s)
@@ -372,7 +399,7 @@ Inductive aval :=
 | AScal (s : scalar)
 | ANew (con : bool) (idx : N) (o : alist)   (* newRef = true: ArchiveObjectPosition + entries *)
 | APtr (con : bool) (idx : N)               (* newRef = false: ArchiveObjectPointer *)
-with alist := ANil | ACons (k : Z) (v : aval) (o : alist).
+with alist := ANil | ACons (k : key) (v : aval) (o : alist).
 
 Record athread := mkAThr {
   a_vars : alist;               (* Listener::Archive: the variable list (name, value) *)
@@ -437,8 +464,9 @@ Fixpoint save_val (f : nat) (hp : list (N * holder)) (v : value) (cnt : N) (seen
   end.
 
 (* a variable list as a holder: the name is the key *)
-Definition env_holder (e : list (N * value)) : holder := map (fun xv => (Z.of_N (fst xv), snd xv)) e.
-Definition holder_env (o : holder) : list (N * value) := map (fun kv => (Z.to_N (fst kv), snd kv)) o.
+Definition env_holder (e : list (N * value)) : holder := map (fun xv => (KInt (Z.of_N (fst xv)), snd xv)) e.
+Definition key_name (k : key) : N := match k with KInt z => Z.to_N z | KStr _ => 0 end.
+Definition holder_env (o : holder) : list (N * value) := map (fun kv => (key_name (fst kv), snd kv)) o.
 
 Definition save_thread (f : nat) (hp : list (N * holder)) (t : thread) (cnt : N) (seen : list (N * N))
   : sres athread :=
